@@ -6,7 +6,7 @@
    the class invariant of IntegerSet (its constructor filters the others out). *)
 From PV Require Import Lib.Py Spec.RegLangSpec Model.Regex.
 From PV Require Import Proofs.C31_sets Proofs.C31_regex Proofs.C31_dfa Proofs.C31_parser.
-From PV Require Import Proofs.C31_parser_rt Proofs.C31_total Proofs.C31_scan Proofs.C31_term.
+From PV Require Import Proofs.C31_parser_rt Proofs.C31_total Proofs.C31_scan Proofs.C31_term Proofs.C31_fix.
 Open Scope Z_scope.
 
 (* nullable() decides membership of the empty word *)
@@ -153,6 +153,51 @@ Theorem c31_compile_terminates_certified : forall S r fuel,
   (exists d, compile fuel r = Ok d) \/ compile fuel r = Internal KeyError.
 Proof. exact compile_terminates_cases. Qed.
 Print Assumptions c31_compile_terminates_certified.
+
+(* ---- the repaired compile() and scan() (Model.Regex.compile_fx / scan_fx; the check probes which
+   variant the source contains and cross-checks that one).
+   compile_fx appends the error state when it was not reached, so the tables are complete for
+   EVERY regex whose construction terminates, including ".*". *)
+Theorem c31_dfa_correct_fx : forall fuel r d, re_canon r -> compile_fx fuel r = Ok d ->
+  forall s, Forall in_sigma s ->
+  (run d s = Ok true <-> L r s) /\ (run d s = Ok false <-> ~ L r s).
+Proof. exact dfa_fx_correct. Qed.
+Print Assumptions c31_dfa_correct_fx.
+
+(* scan_fx (an empty longest match is no match) terminates for EVERY compiled regex, nullable or
+   not, within (length input + 2)^2 loop iterations, with tokens or the scanner's ValueError.
+   (length input + 1 iterations do NOT suffice: after each token the scan restarts behind it and
+   re-reads the look-ahead, see c31_nonvacuous4.) *)
+Theorem c31_scan_total : forall fuel r d chars,
+  re_canon r -> compile_fx fuel r = Ok d -> Forall in_sigma chars ->
+  (exists toks, scan_fx ((length chars + 2) * (length chars + 2)) d chars = Ok toks) \/
+  (exists code, scan_fx ((length chars + 2) * (length chars + 2)) d chars = Diag code).
+Proof. exact scan_fx_total. Qed.
+Print Assumptions c31_scan_total.
+
+(* and it is maximal munch for every regex: tokens = the split into longest NON-EMPTY matching
+   prefixes; ValueError exactly when no such split exists; never an internal error *)
+Theorem c31_scan_correct_fx : forall fuel fuel2 r d chars,
+  re_canon r -> compile_fx fuel r = Ok d -> Forall in_sigma chars ->
+  match scan_fx fuel2 d chars with
+  | Ok toks => munch (L r) chars toks /\ concat toks = chars
+  | Diag _ => forall toks, ~ munch (L r) chars toks
+  | Internal _ => False
+  | OutOfFuel => True
+  end.
+Proof. exact scan_fx_correct. Qed.
+Print Assumptions c31_scan_correct_fx.
+
+Example c31_nonvacuous4 :
+  (exists d, compile_fx 10 (Star SIGMA) = Ok d /\ compile 10 (Star SIGMA) = Internal KeyError /\
+             run d [120; 121] = Ok true /\ scan_fx 16 d [120; 121] = Ok [[120; 121]]) /\
+  (exists d, compile_fx 10 (Star (Sym [(97, 97)])) = Ok d /\
+             scan_fx 9 d [98] = Diag 1 /\ scan_fx 16 d [97; 97] = Ok [[97; 97]] /\ scan 50 d [98] = OutOfFuel) /\
+  (exists d, compile_fx 20 (Or (Cat (Star (Sym [(97, 97)])) (Sym [(98, 98)])) (Sym [(97, 97)])) = Ok d /\
+             scan_fx 4 d [97; 97; 97] = OutOfFuel /\ scan_fx 25 d [97; 97; 97] = Ok [[97]; [97]; [97]]).
+Proof.
+  split; [|split]; eexists; (split; [vm_compute; reflexivity|]); vm_compute; repeat split.
+Qed.
 
 Example c31_nonvacuous3 :
   closedb cert_example = true /\ memb (Cat (Sym [(97, 97)]) (Star (Sym [(97, 97)]))) cert_example = true /\
